@@ -123,7 +123,8 @@ fn explore(ctx: &Ctx) -> Outcome {
     }
     // length sweep (text offsets slid across the table offsets) and long multi-byte strings
     let mut extra = binfam::length_sweep();
-    extra.extend(binfam::multibyte_alignment().into_iter().chain(binfam::kana_family()).map(|mut c| {
+    let (dl, dd) = ctx.tier.pick((300, 300), (1300, 4400));
+    extra.extend(binfam::multibyte_alignment().into_iter().chain(binfam::kana_family()).chain(binfam::tricky_family()).chain(binfam::collation_family()).chain(binfam::many_labels_family()).chain(binfam::dense_family(dl, dd)).map(|mut c| {
         c.cstrings.clear();
         c
     }));
@@ -138,8 +139,28 @@ fn explore(ctx: &Ctx) -> Outcome {
             t
         })
         .reduce(Tally::new, Tally::merge);
-    layers.push(json!({"family": "length sweep (names/strings of length 0..=48, shared or not) + long multi-byte strings", "contents": extra.len(), "completed": true}));
+    layers.push(json!({"family": format!("length sweep (names/strings of length 0..=48, shared or not) + long multi-byte strings + tricky-string catalogue + collation-inversion label pairs + 3..=40 cells × 1..=3 unsorted labels + dense sweeps (every string/label length 0..={}, every data length 0..={})", dl, dd), "contents": extra.len(), "completed": true}));
     total.absorb(t);
+    // state carried between calls (props::poison right before representative cases, same thread)
+    {
+        let mut t = Tally::new();
+        let reps: Vec<Content> = binfam::kana_family().into_iter().chain(binfam::length_sweep().into_iter().step_by(29)).map(|mut c| {
+            c.cstrings.clear();
+            c
+        }).collect();
+        for c in &reps {
+            props::poison::failing_calls();
+            t.cases += 1;
+            t.nontrivial += 1;
+            if let Some((sig, summary)) = judge(c, &mut t, 3, 2, 1) {
+                let mut cj = binfam::describe(c);
+                cj["after_failed_calls"] = json!(true);
+                t.violate(format!("after-failed-calls:{}", sig), summary.chars().take(500).collect::<String>(), cj);
+            }
+        }
+        layers.push(json!({"family": "a fixed series of failing parses / failing serializations / odd strings on the same thread right before the case", "cases": reps.len(), "completed": true}));
+        total.absorb(t);
+    }
     // large archives (tables and text beyond 64 KiB; a ladder of cell counts)
     let bigs = binfam::big_cases();
     let t = bigs
@@ -225,6 +246,10 @@ fn replay(ctx: &Ctx, case: &Value) -> Vec<Violation> {
     let c = binfam::content_from_json(case);
     let (max_calls, _, _) = params(ctx.tier);
     let mut t = Tally::new();
+    if case["after_failed_calls"].as_bool().unwrap_or(false) {
+        props::poison::failing_calls();
+        return judge(&c, &mut t, 3, 2, 1).map(|(sig, summary)| vec![Violation { sig: format!("after-failed-calls:{}", sig), summary, case: case.clone() }]).unwrap_or_default();
+    }
     // replay with many fresh instances: a hash-order dependent defect shows with probability ≥ 1 - (1/2)^63
     match judge(&c, &mut t, max_calls.max(3), 64, 4) {
         Some((sig, summary)) => vec![Violation { sig, summary, case: case.clone() }],
